@@ -7,7 +7,7 @@ import time
 
 import numpy as np
 
-from ..harness import T, Inp, sig_of, elem_names, EpsZero, _exp_all
+from ..harness import T, Inp, sig_of, elem_names, EpsZero, _exp_all, gradof, set_grad
 from ..opcat_nn import geo2d, out_len
 from ..symnum import engine as E
 from ..symnum import scalar as sc
@@ -536,11 +536,11 @@ class Case:
         for sp, x, y in zip(specs, tl, tr):
             if not sp.differentiable:
                 continue
-            if x._grad is None or y._grad is None:
-                out.fact("grad(%s) present on both sides" % sp.label, x._grad is None and y._grad is None,
-                         "fused: %s, composed: %s" % (x._grad is not None, y._grad is not None))
+            if gradof(x) is None or gradof(y) is None:
+                out.fact("grad(%s) present on both sides" % sp.label, gradof(x) is None and gradof(y) is None,
+                         "fused: %s, composed: %s" % (gradof(x) is not None, gradof(y) is not None))
                 continue
-            out.pair("grad(%s)" % sp.label, x._grad, y._grad)
+            out.pair("grad(%s)" % sp.label, gradof(x), gradof(y))
         return out
 
 
